@@ -129,3 +129,24 @@ def _(eng, m, g, a):
         x = pm.it.next(eng); pm.queue.append(none() if x is None else some(x))
     q = pm.queue[k]
     return none() if q.idx == 0 else some(Slot(q.f, 0))
+
+@model(r"^<SmallVec<.*> as (?:std::default::)?Default>::default$|^SmallVec::with_capacity$|^(?:smallvec::)?SmallVec::new_const$")
+def _(eng, m, g, a): return VecV()
+@model(r"^SmallVec::(len)$")
+def _(eng, m, g, a): return Sc("usize", len(deref(a[0]).items))
+@model(r"^SmallVec::(is_empty)$")
+def _(eng, m, g, a): return B(not deref(a[0]).items)
+@model(r"^SmallVec::(clear)$")
+def _(eng, m, g, a): deref(a[0]).items[:] = []; return UNIT
+@model(r"^SmallVec::(truncate)$")
+def _(eng, m, g, a): del deref(a[0]).items[a[1].v:]; return UNIT
+@model(r"^SmallVec::(iter|iter_mut)$")
+def _(eng, m, g, a): return ListIt(deref(a[0]).items, True)
+@model(r"^SmallVec::(as_slice|as_mut_slice)$|^<SmallVec<.*> as (?:std::ops::)?DerefMut>::deref_mut$|^<SmallVec<.*> as (?:std::convert::)?AsRef<\[.*\]>>::as_ref$")
+def _(eng, m, g, a): return a[0]
+@model(r"^<SmallVec<.*> as Extend<.*>>::extend$")
+def _(eng, m, g, a): deref(a[0]).items.extend(drain(eng, as_iter(eng, a[1]))); return UNIT
+@model(r"^SmallVec::(insert)$")
+def _(eng, m, g, a): deref(a[0]).items.insert(a[1].v, a[2]); return UNIT
+@model(r"^SmallVec::(remove)$")
+def _(eng, m, g, a): return deref(a[0]).items.pop(a[1].v)
